@@ -7,6 +7,25 @@ import (
 
 func dumpDebug(p *Prog, what string) {
 	switch what {
+	case "nil":
+		na := p.Nil()
+		scope := func(fn *Func) bool {
+			for _, s := range []string{"scheduler", "objects", "ugm", "placement", "security", "rmproxy"} {
+				if p.InPkg(fn, s) {
+					return true
+				}
+			}
+			return false
+		}
+		n, bad := 0, 0
+		for _, s := range na.Sites(scope) {
+			n++
+			if !s.OK {
+				bad++
+				fmt.Printf("NIL %s %s in %s: %s\n", p.Pos(s.Node), p.Src(s.Node), s.Fn.Name, s.Source)
+			}
+		}
+		fmt.Println("sites", n, "undischarged", bad, "mayNil funcs", len(na.mayNil))
 	case "locks":
 		la := p.Locks()
 		for _, n := range la.sortedStructNames() {
